@@ -47,7 +47,7 @@ class GenState:
         return self.register_mangled(name, obj)
 
     def register_mangled(self, base: str, obj: object) -> str:
-        base = self._name_sanitizer.sanitize(base)
+        base = self._name_sanitizer.sanitize(base) or "_"  # object can have an empty ``__name__``
         if self._namespace.try_add_constant(base, obj):
             return base
 
